@@ -247,4 +247,10 @@ Proof.
   - reflexivity.
 Qed.
 
+(* the run the theorem speaks about is the first thing solve does: run_sat for the root from the initial state *)
+Lemma root_run_is_run_loop fuel efuel a0 order :
+  let st0 := mkS (estate0 cache0) [mkCl KRoot [(VRoot, true)]] ps0 [] [] a0 0 [] order true [] in
+  run_sat U P a_ge a_conflict fuel efuel st0 None = run_loop U P a_ge a_conflict fuel efuel st0 None 0 0.
+Proof. reflexivity. Qed.
+
 End NP.
